@@ -112,7 +112,7 @@ def decode_op(t):
 
 
 def strategy():
-    op = st.tuples(st.integers(0, 13), st.integers(0, 12 * 8 * 4 - 1)).map(decode_op)
+    op = st.tuples(st.integers(0, 13), worldops.packed(12 * 8 * 4)).map(decode_op)
     return st.fixed_dictionaries({
         'kinds': st.lists(st.integers(0, len(KINDS) - 1), min_size=5, max_size=5),
         'ops': worldops.chunked(op, 40),
